@@ -43,10 +43,11 @@ decreasing_by omega
 
 /-- `binary.ReadUvarint` over the remaining bytes of a byte reader.  `i` = bytes consumed so far,
 `x` = accumulator, `s` = shift.  Returns the value and the number of bytes consumed.
-Go accepts non-minimal encodings (e.g. `91 8d cc 00`), rejects an 11th byte and a 10th byte > 1,
-and reports `io.EOF` only when not a single byte was available. -/
+Go accepts non-minimal encodings (e.g. `91 8d cc 00`), rejects a 10th byte > 1 and gives up with an overflow error
+after ten continuation bytes WITHOUT reading an eleventh, and reports `io.EOF` only when not a single byte was
+available. -/
 def uvarintDecAux : Bytes → (i x s : Nat) → Except Err (Nat × Nat)
-  | [], i, _, _ => if i = 0 then .error .eof else .error .unexpectedEof
+  | [], i, _, _ => if i ≥ 10 then .error .overflow else if i = 0 then .error .eof else .error .unexpectedEof
   | b :: bs, i, x, s =>
     if i ≥ 10 then .error .overflow else
     if b.toNat < 128 then
